@@ -11,7 +11,7 @@ RULE = ("conventional files with comment blocks of any length before keys, trail
         "quote; continuation lines with trailing blanks; blank-only lines below an entry) compared with the model; results of layered reads whose later files have or have not any entry (path and extended values through the model); econf_getPath for single files (absolute also for relative names) and \"\" for merged results; distinct by bytes")
 
 def gen(rng, tier):
-    n = 900 if tier == "quick" else 30000
+    n = 1800 if tier == "quick" else 30000
     asts = []
     for _ in range(n):
         dl = rng.choice(grammar.DELIMS); cm = rng.choice(grammar.COMMENTS)
